@@ -141,7 +141,7 @@ def lib_symbols():
 
 
 # model region id (Struct/Leak.v region_id) -> (symbol names, window length in bytes)
-REGIONS = {**{j: (["sbox%dp" % j], 1024) for j in range(8)},
+REGIONS = {**{j: (["sbox%dp" % j], 1024) for j in range(8)},   # window lengths: set from the source in main()
            8: (["sso_kasumi_S7e"], 512), 9: (["sso_kasumi_S9e"], 1024),
            10: (["snow3g_inv_SR_SQ", "snow3g_invSR_SQ"], 256),
            11: (["mul_alpha"], 128), 12: (["div_alpha"], 128)}
@@ -377,6 +377,10 @@ def main(tier, seed):
     os.makedirs(WORK(), exist_ok=True)
     cache = open(os.path.join(common.LIBDIR, "CMakeCache.txt")).read()
     safe_lookup = "SAFE_LOOKUP:BOOL=ON" in cache
+    sys.path.insert(0, os.path.join(common.VERIF, "translators"))
+    import t7_lookup_sizes
+    t7_lookup_sizes.REPO = common.REPO
+    lookup_sizes = t7_lookup_sizes.main()
     pres = common.props_check(PID, extra_targets=["Props/Examples_C19.vo"])
     common.proof_coverage(res, pres, "make -k Props/Properties_C19.vo Props/Examples_C19.vo (coqc 8.16.1) + Print Assumptions",
                           ["Coq 8.16.1 kernel incl. vm_compute (finite table checks: 3^8 index shapes, 256 nibble cases, table lengths)",
@@ -388,6 +392,10 @@ def main(tier, seed):
     exe, flt = build_tools()
     sy = lib_symbols()
     symfile = os.path.join(WORK(), "syms.txt")
+    for j in range(8):   # the scans cover <size argument> elements of 4 resp. 2 bytes
+        REGIONS[j] = (REGIONS[j][0], max(256, 4 * lookup_sizes["des_lookup_elems"]))
+    REGIONS[8] = (REGIONS[8][0], max(512, 2 * lookup_sizes["kasumi_S7_lookup_elems"]))
+    REGIONS[9] = (REGIONS[9][0], max(1024, 2 * lookup_sizes["kasumi_S9_lookup_elems"]))
     missing = write_symfile(sy, symfile)
     rng = Rng(seed)
 
@@ -420,26 +428,39 @@ def main(tier, seed):
             lines = [l for ci in cis for l in class_keys[ci]]
             jobs.append(("lk", arch, g, cis, lines))
 
-    t_model0 = time.time()
-    results = []
-    with cf.ThreadPoolExecutor(max_workers=common.NCPU) as ex:
-        futs = {}
-        # the model expectations are computed while valgrind runs
-        fexp = ex.submit(model_expectations, classes)
-        for j in sorted(jobs, key=lambda j: -len(j[4])):
-            if j[0] == "mc":
-                _, arch, batch, k, part = j
-                futs[ex.submit(run_memcheck, arch, part, "%s_b%d_%d" % (arch, batch, k), batch, exe)] = j
-            else:
-                _, arch, g, cis, lines = j
-                futs[ex.submit(run_lackey, arch, lines, "%s_%s_%d" % (arch, g[0], g[1]), symfile, exe, flt)] = j
-        for fu in cf.as_completed(futs):
-            results.append((futs[fu], fu.result()))
-        try:
-            expect, t_coq = fexp.result()
-            expect_err = None
-        except Exception as e:
-            expect, t_coq, expect_err = {}, 0.0, str(e)
+    # The library build directory is shared with other checks: if the .so is relinked while
+    # valgrind runs, the symbol addresses no longer describe the executed image -> run again.
+    def so_stamp():
+        st = os.stat(os.path.realpath(SO()))
+        return (st.st_mtime_ns, st.st_size)
+    for attempt in range(3):
+        stamp = so_stamp()
+        sy = lib_symbols()
+        missing = write_symfile(sy, symfile)
+        t_model0 = time.time()
+        results = []
+        with cf.ThreadPoolExecutor(max_workers=common.NCPU) as ex:
+            futs = {}
+            # the model expectations are computed while valgrind runs
+            fexp = ex.submit(model_expectations, classes)
+            for j in sorted(jobs, key=lambda j: -len(j[4])):
+                if j[0] == "mc":
+                    _, arch, batch, k, part = j
+                    futs[ex.submit(run_memcheck, arch, part, "%s_b%d_%d" % (arch, batch, k), batch, exe)] = j
+                else:
+                    _, arch, g, cis, lines = j
+                    futs[ex.submit(run_lackey, arch, lines, "%s_%s_%d" % (arch, g[0], g[1]), symfile, exe, flt)] = j
+            for fu in cf.as_completed(futs):
+                results.append((futs[fu], fu.result()))
+            try:
+                expect, t_coq = fexp.result()
+                expect_err = None
+            except Exception as e:
+                expect, t_coq, expect_err = {}, 0.0, str(e)
+
+        if so_stamp() == stamp:
+            break
+        log("C19: the library was relinked during the run, repeating the valgrind phase")
 
     known = [l for (kind, l) in common.known_findings(PID) if kind == "known"]
 
@@ -453,7 +474,7 @@ def main(tier, seed):
         return False
 
     # ---- evaluate memcheck ------------------------------------------------------------------
-    mc_cases = mc_err = mc_notaint = 0
+    mc_cases = mc_err = mc_notaint = mc_nontrivial = 0
     viol_mc = {}
     harness_fail = []
     for (j, r) in results:
@@ -461,6 +482,7 @@ def main(tier, seed):
             continue
         _, arch, batch, k, part = j
         mc_cases += len(r["cases"])
+        mc_nontrivial += sum(1 for l in part if int(l.split()[3]) > 8)
         if r["crashed"] or len(r["cases"]) != len(part):
             harness_fail.append({"arch": arch, "batch": batch, "stderr": r["stderr"], "script": r["script"],
                                  "cases_returned": len(r["cases"]), "cases_sent": len(part)})
@@ -595,17 +617,17 @@ def main(tier, seed):
         lenhist[c[0]] = lenhist.get(c[0], 0) + 1
     res.coverage.update({
         "evaluations": mc_cases + cmp_pairs,
-        "distinct_nontrivial": cmp_pairs + sum(1 for c in mcases if c[2] > 8),
-        "rule": "one evaluation = one job run under memcheck with its key schedule undefined (counted once per variant and "
-                "batch size), or one (base key, other key) pair whose complete instruction- and data-address sequences "
-                "were compared; non-trivial = a key pair, or a memcheck job longer than one cipher block / 8 units",
+        "distinct_nontrivial": cmp_pairs + mc_nontrivial,
+        "rule": "one evaluation = one job run under memcheck with its key schedule undefined on one (variant, batch size), or "
+                "one (variant, class, base key, other key) pair whose complete instruction- and data-address sequences were "
+                "compared; non-trivial = a key pair, or a memcheck job with length > 8 (bytes or bits as the algorithm counts)",
         "memcheck_jobs": mc_cases, "memcheck_secret_dependent_reports": mc_err,
         "memcheck_jobs_where_taint_did_not_reach_output": mc_notaint,
         "trace_classes": cmp_classes, "trace_key_pairs_compared": cmp_pairs, "trace_events_compared": seg_events,
         "model_tie_classes_ok": tie_ok, "model_tie_classes_failed": len(tie_fail),
         "algo_histogram_memcheck": lenhist, "classes": [list(c) for c in classes],
         "variants": ["sse:f3 (type 1)", "avx2:f3 (type 1)"], "batch_sizes": [1, 4],
-        "samples": samples, "safe_lookup": safe_lookup, "lib_build_s": round(tb, 1),
+        "samples": samples, "safe_lookup": safe_lookup, "lookup_sizes_from_source": lookup_sizes, "lib_build_s": round(tb, 1),
         "coq_expectation_s": round(t_coq, 1), "valgrind_s": round(time.time() - t_model0, 1),
         "traces_validated_against_impl": tie_ok,
     })
